@@ -153,6 +153,10 @@ pub fn layouts_for(k: u64, tier: Tier) -> Vec<Layout> {
     if tier == Tier::Thorough {
         v.push(Layout::RandomWithPrefix);
     }
+    // now and then the same tokens behind 70 000 empty lines (line numbers beyond 16 bits)
+    if k % 97 == 5 {
+        v.push(Layout::TallPrefix);
+    }
     v
 }
 
